@@ -1024,6 +1024,10 @@ func (s *Store[K, V]) Recover(version uint64, reader io.Reader) error {
 	defer s.policyMu.Unlock()
 	metaSeen := false
 	sameSize := false
+	// into a cache of another size an entry is admitted only while its cost still
+	// fits the region; the first that does not closes the region, so what is
+	// restored is a prefix from the most recently used end and never more than fits
+	var windowFull, probationFull, protectedFull bool
 	// room reports whether an entry of the given weight may still be restored
 	// into a cache of the saved size
 	room := func(weight int64) bool {
@@ -1096,7 +1100,7 @@ func (s *Store[K, V]) Recover(version uint64, reader io.Reader) error {
 				if expire != 0 && expire < s.timerwheel.clock.NowNano() {
 					continue
 				}
-				if (sameSize && room(pentry.PolicyWeight)) || (!sameSize && s.policy.window.Len() < int(s.policy.window.capacity)) {
+				if (sameSize && room(pentry.PolicyWeight)) || (!sameSize && !windowFull && s.policy.window.Len()+int(pentry.PolicyWeight) <= int(s.policy.window.capacity)) {
 					entry := pentry.entry()
 					s.policy.window.PushBack(entry)
 					s.insertSimple(entry)
@@ -1104,6 +1108,8 @@ func (s *Store[K, V]) Recover(version uint64, reader io.Reader) error {
 						s.policy.sketch.Addn(s.hasher.Hash(entry.key), pentry.Frequency)
 					}
 					s.policy.weightedSize += uint(entry.policyWeight)
+				} else {
+					windowFull = true
 				}
 			}
 		case 3: // main-probation
@@ -1123,7 +1129,7 @@ func (s *Store[K, V]) Recover(version uint64, reader io.Reader) error {
 				}
 				l1 := s.policy.slru.protected
 				l2 := s.policy.slru.probation
-				if (sameSize && room(pentry.PolicyWeight)) || (!sameSize && l1.len+l2.len < int64(s.policy.slru.maxsize)) {
+				if (sameSize && room(pentry.PolicyWeight)) || (!sameSize && !probationFull && l1.len+l2.len+pentry.PolicyWeight <= int64(s.policy.slru.maxsize)) {
 					entry := pentry.entry()
 					l2.PushBack(entry)
 					s.insertSimple(entry)
@@ -1131,6 +1137,8 @@ func (s *Store[K, V]) Recover(version uint64, reader io.Reader) error {
 						s.policy.sketch.Addn(s.hasher.Hash(entry.key), pentry.Frequency)
 					}
 					s.policy.weightedSize += uint(entry.policyWeight)
+				} else {
+					probationFull = true
 				}
 			}
 		case 4: // main protected
@@ -1149,7 +1157,7 @@ func (s *Store[K, V]) Recover(version uint64, reader io.Reader) error {
 					continue
 				}
 				l := s.policy.slru.protected
-				if (sameSize && room(pentry.PolicyWeight)) || (!sameSize && l.len < int64(l.capacity)) {
+				if (sameSize && room(pentry.PolicyWeight)) || (!sameSize && !protectedFull && l.len+pentry.PolicyWeight <= int64(l.capacity)) {
 					entry := pentry.entry()
 					l.PushBack(entry)
 					s.insertSimple(entry)
@@ -1157,6 +1165,8 @@ func (s *Store[K, V]) Recover(version uint64, reader io.Reader) error {
 						s.policy.sketch.Addn(s.hasher.Hash(entry.key), pentry.Frequency)
 					}
 					s.policy.weightedSize += uint(entry.policyWeight)
+				} else {
+					protectedFull = true
 				}
 			}
 		default:
